@@ -862,3 +862,158 @@ impl ValT for Vn {
         self.v = v;
     }
 }
+
+// ------------------------------------------------------------------------------------------
+// Lk / LQ: the liar (C17). A ledger key whose `==`, whose borrowed form's `==`, and whose
+// `borrow()` answer from a per-thread *tape*: call number p of the run deviates from the
+// lawful answer iff bit p of the tape is set (beyond the tape the answer is lawful). While a
+// state is being built the tape can instead force every comparison to "not equal", which is
+// how layouts with duplicate keys are produced through the real API.
+// ------------------------------------------------------------------------------------------
+#[derive(Clone, Copy, PartialEq, Eq, Debug)]
+pub enum TapeMode {
+    Lawful,
+    ForceNe,
+    Tape,
+}
+pub struct Tape {
+    pub mode: TapeMode,
+    pub devs: u64,
+    pub pos: u32,
+    pub consumed_devs: u32,
+    pub nk: u8,
+}
+thread_local! {
+    static TAPE: RefCell<Tape> = const { RefCell::new(Tape { mode: TapeMode::Lawful, devs: 0, pos: 0, consumed_devs: 0, nk: 2 }) };
+}
+pub fn tape_set(mode: TapeMode, devs: u64, nk: u8) {
+    TAPE.with(|t| {
+        let mut t = t.borrow_mut();
+        t.mode = mode;
+        t.devs = devs;
+        t.pos = 0;
+        t.consumed_devs = 0;
+        t.nk = nk.max(1);
+    });
+}
+/// Back to lawful answers; returns (answers given since tape_set, deviations actually consumed).
+pub fn tape_off() -> (u32, u32) {
+    TAPE.with(|t| {
+        let mut t = t.borrow_mut();
+        t.mode = TapeMode::Lawful;
+        (t.pos, t.consumed_devs)
+    })
+}
+/// One answer: Some(true) deviate, Some(false) lawful, None: forced "not equal".
+fn tape_next() -> (Option<bool>, u8) {
+    TAPE.with(|t| {
+        let mut t = t.borrow_mut();
+        match t.mode {
+            TapeMode::Lawful => (Some(false), t.nk),
+            TapeMode::ForceNe => (None, t.nk),
+            TapeMode::Tape => {
+                let p = t.pos;
+                t.pos += 1;
+                let d = p < 64 && (t.devs >> p) & 1 == 1;
+                if d {
+                    t.consumed_devs += 1;
+                }
+                (Some(d), t.nk)
+            }
+        }
+    })
+}
+
+#[repr(C)]
+pub struct Lk {
+    cookie: u64,
+    id: u32,
+    pub k: u8,
+    pub tag: u8,
+}
+/// The liar's borrowed form.
+#[repr(transparent)]
+#[derive(Debug)]
+pub struct LQ(pub u8);
+static LQS: [LQ; 8] = [LQ(0), LQ(1), LQ(2), LQ(3), LQ(4), LQ(5), LQ(6), LQ(7)];
+
+impl Lk {
+    pub fn new(k: u8, tag: u8) -> Self {
+        let (cookie, id) = alloc(true, k, tag, NOID);
+        Lk { cookie, id, k, tag }
+    }
+}
+impl PartialEq for Lk {
+    fn eq(&self, other: &Self) -> bool {
+        tick(Cb::Eq);
+        touch(true, self.cookie, self.id, self.k, self.tag, "==");
+        touch(true, other.cookie, other.id, other.k, other.tag, "==");
+        let lawful = self.k == other.k;
+        match tape_next().0 {
+            None => false,
+            Some(d) => lawful ^ d,
+        }
+    }
+}
+impl Eq for Lk {}
+impl PartialEq for LQ {
+    fn eq(&self, other: &Self) -> bool {
+        tick(Cb::Eq);
+        let lawful = self.0 == other.0;
+        match tape_next().0 {
+            None => false,
+            Some(d) => lawful ^ d,
+        }
+    }
+}
+impl Eq for LQ {}
+impl Borrow<LQ> for Lk {
+    fn borrow(&self) -> &LQ {
+        tick(Cb::Borrow);
+        touch(true, self.cookie, self.id, self.k, self.tag, "borrow");
+        let (a, nk) = tape_next();
+        let idx = if a == Some(true) { (self.k + 1) % nk } else { self.k };
+        &LQS[(idx & 7) as usize]
+    }
+}
+impl Clone for Lk {
+    fn clone(&self) -> Self {
+        tick(Cb::Clone);
+        if touch(true, self.cookie, self.id, self.k, self.tag, "clone") {
+            with(|l| l.objs[self.id as usize].clones += 1);
+        }
+        let (cookie, id) = alloc(true, self.k, self.tag, self.id);
+        Lk { cookie, id, k: self.k, tag: self.tag }
+    }
+}
+impl Drop for Lk {
+    fn drop(&mut self) {
+        destroy(true, self.cookie, self.id, self.k, self.tag);
+        unsafe { std::ptr::write_volatile(&mut self.cookie, DEAD) };
+        tick(Cb::Drop);
+    }
+}
+impl fmt::Debug for Lk {
+    fn fmt(&self, f: &mut fmt::Formatter<'_>) -> fmt::Result {
+        touch(true, self.cookie, self.id, self.k, self.tag, "Debug");
+        write!(f, "k{}t{}", self.k, self.tag)
+    }
+}
+impl KeyT for Lk {
+    type Q = LQ;
+    const NAME: &'static str = "Lk(liar)";
+    const TAGS: u8 = 1;
+    const MAXK: u8 = 8;
+    const LEDGER: bool = true;
+    const DISTINCT_Q: bool = true;
+    fn mk(k: u8, tag: u8) -> Self {
+        Lk::new(k, tag)
+    }
+    fn kd(&self) -> KD {
+        touch(true, self.cookie, self.id, self.k, self.tag, "inspect");
+        KD { id: self.id, k: self.k, tag: self.tag }
+    }
+    fn with_q<R>(k: u8, f: impl FnOnce(&LQ) -> R) -> R {
+        f(&LQS[(k & 7) as usize])
+    }
+}
